@@ -89,6 +89,114 @@ func writeCallsDominating(p *Prog, in ssa.Instruction) []*ssa.Call {
 // errEdge finds the `if err != nil` (or == nil) branch on the result of call c
 // and returns the successor blocks for the non-nil and nil outcomes.
 func errEdge(c ssa.Value) (nonNil, isNil *ssa.BasicBlock, iff *ssa.If) {
+	if nn, nl, i := errEdge1(c); i != nil {
+		return nn, nl, i
+	}
+	// the value is assigned to a variable living in memory (a captured or
+	// address-taken local, a spilled result) and the variable is tested: a
+	// test of a load that the store of c reaches
+	ci, ok := c.(ssa.Instruction)
+	if !ok || ci.Parent() == nil || storedCellOf(c) == nil {
+		return
+	}
+	for _, b := range ci.Parent().Blocks {
+		if len(b.Instrs) == 0 {
+			continue
+		}
+		i, ok := b.Instrs[len(b.Instrs)-1].(*ssa.If)
+		if !ok {
+			continue
+		}
+		bo, ok := i.Cond.(*ssa.BinOp)
+		if !ok || (bo.Op != token.NEQ && bo.Op != token.EQL) {
+			continue
+		}
+		var x ssa.Value
+		switch {
+		case isNilConst(bo.Y):
+			x = bo.X
+		case isNilConst(bo.X):
+			x = bo.Y
+		default:
+			continue
+		}
+		if _, isLoad := x.(*ssa.UnOp); !isLoad {
+			continue
+		}
+		hit := false
+		for _, v := range fsValues(x, i, nil) {
+			if v == c {
+				hit = true
+			}
+		}
+		if !hit {
+			continue
+		}
+		if bo.Op == token.NEQ {
+			return b.Succs[0], b.Succs[1], i
+		}
+		return b.Succs[1], b.Succs[0], i
+	}
+	return
+}
+
+// forwardedLoads: loads that certainly yield v: v is stored to a local
+// memory cell and the cell is loaded later in the same block with no other
+// store to it in between.
+func forwardedLoads(v ssa.Value) []ssa.Value {
+	var out []ssa.Value
+	refs := v.Referrers()
+	if refs == nil {
+		return nil
+	}
+	for _, u := range *refs {
+		st, ok := u.(*ssa.Store)
+		if !ok || st.Val != v {
+			continue
+		}
+		switch st.Addr.(type) {
+		case *ssa.Alloc, *ssa.FreeVar:
+		default:
+			continue
+		}
+		after := false
+		for _, in := range st.Block().Instrs {
+			if in == ssa.Instruction(st) {
+				after = true
+				continue
+			}
+			if !after {
+				continue
+			}
+			if s2, ok := in.(*ssa.Store); ok && s2.Addr == st.Addr {
+				break
+			}
+			if ld, ok := in.(*ssa.UnOp); ok && ld.Op == token.MUL && ld.X == st.Addr {
+				out = append(out, ld)
+			}
+		}
+	}
+	return out
+}
+
+// storedCellOf: the local memory cell v is stored to (nil if none).
+func storedCellOf(v ssa.Value) ssa.Value {
+	refs := v.Referrers()
+	if refs == nil {
+		return nil
+	}
+	for _, u := range *refs {
+		if st, ok := u.(*ssa.Store); ok && st.Val == v {
+			switch st.Addr.(type) {
+			case *ssa.Alloc, *ssa.FreeVar:
+				return st.Addr
+			}
+		}
+	}
+	return nil
+}
+
+func errEdge1(c ssa.Value) (nonNil, isNil *ssa.BasicBlock, iff *ssa.If) {
 	refs := c.Referrers()
 	if refs == nil {
 		return
